@@ -188,3 +188,8 @@ class HistParametricModel(ParametricModelBaseMixin, HistContainer):
 
     def fill(self, entries):
         raise TypeError("Parametric model of histogram cannot be filled!")
+
+    def rebin(self, new_bin_edges):
+        super(HistParametricModel, self).rebin(new_bin_edges)
+        # the bin heights need to be recalculated for the new binning
+        self._pm_calculation_stale = True
